@@ -3756,6 +3756,10 @@ def svd(
 
     # figure out qtotal_LR
     qtotal_L, qtotal_R = qtotal_LR
+    if qtotal_L is not None:
+        qtotal_L = a.chinfo.make_valid(qtotal_L)  # convert to ndarray: lists would be concatenated by `+` below
+    if qtotal_R is not None:
+        qtotal_R = a.chinfo.make_valid(qtotal_R)
     if qtotal_L is None and qtotal_R is None:
         qtotal_R = a.qtotal
     if qtotal_L is None:
